@@ -165,7 +165,11 @@ func (j *JWT) Verify(issuerURL, clientID string) error {
 		return err
 	}
 
-	if nbf, ok := claims["nbf"].(float64); ok {
+	if nbfRaw, present := claims["nbf"]; present {
+		nbf, ok := nbfRaw.(float64)
+		if !ok {
+			return fmt.Errorf("invalid 'nbf' claim")
+		}
 		if err := verifyNotBefore(nbf); err != nil {
 			return err
 		}
